@@ -439,7 +439,7 @@ pub fn run(ctx: &mut Ctx) {
                 continue;
             }
             ctx.case_begin(&json!({"mode": mode, "family": family, "i": i}));
-            eval(ctx, &case, &mut rng, mode, None);
+            crate::report::guarded(ctx, |ctx| eval(ctx, &case, &mut rng, mode, None));
         }
     }
 }
